@@ -7,7 +7,7 @@
    The main statement holds for every class and every input (no domain restriction since the
    empty-string alias was repaired in /repo 7108448). *)
 From Coq Require Import List String Ascii ZArith Bool.
-From Verif Require Import Regex PyK PyK_strat PyK_alias FieldDecl FieldDeclProofs KeyModel KeyImpl KeyProofs KeyDecl KeyCfg KeyNested.
+From Verif Require Import Regex PyK PyK_strat PyK_alias FieldDecl FieldDeclProofs KeyModel KeyImpl KeyProofs KeyDecl KeyCfg KeyNested KeyRewrite KeyHook.
 From VerifGen Require Import K4 K5.
 Import ListNotations.
 Open Scope string_scope.
@@ -258,6 +258,33 @@ Example C09_nonvacuous_plain_config :
   /\ impl_from_hier ls None [(KeyS "ax", 1%Z); (KeyS "q", 2%Z)] = Ok (OExtra [KeyS "q"])
   /\ impl_from_hier ls None [(KeyS "x", 1%Z)] = Ok (OInst [("x", Some (KeyS "x", 1%Z))]).
 Proof. repeat split; vm_compute; reflexivity. Qed.
+
+(* ---- __pre_deserialize__: the keys are resolved, and the extra keys found, on the mapping the hook of the
+   nearest class returns ---- *)
+Theorem C09_pre_hook : forall hooks ls discr d,
+  impl_hooked hooks ls discr d = Ok (keymodel (class_of ls discr) (apply_hook (nearest_hook hooks) d)).
+Proof. exact impl_hooked_keymodel. Qed.
+Print Assumptions C09_pre_hook.
+
+Theorem C09_nearest_hook : forall hooks h,
+  nearest_hook (hooks ++ [h]) = match h with Some _ => h | None => nearest_hook hooks end.
+Proof. exact nearest_hook_app. Qed.
+Print Assumptions C09_nearest_hook.
+
+Theorem C09_hook_rename : forall d a b v n,
+  dget d a = Some v -> key_eqb a b = false ->
+  dget (apply_op d (HRename a b)) n = if key_eqb b n then Some v else if key_eqb a n then None else dget d n.
+Proof. exact rename_then_read. Qed.
+Print Assumptions C09_hook_rename.
+
+(* x has alias "ax", forbid_extra_keys; the hook renames the legacy key "old" to "ax" and drops "junk":
+   {"old": 1, "junk": 2} is accepted and x = 1; without the hook both keys are extra *)
+Example C09_nonvacuous_hook :
+  let ls := [mkL [(mkF "x" (Some "ax") None false, true)] (Some (mkCD false false None None (Some true)))] in
+  let h := Some [HRename (KeyS "old") (KeyS "ax"); HDrop (KeyS "junk")] in
+  impl_hooked [h] ls None [(KeyS "old", 1%Z); (KeyS "junk", 2%Z)] = Ok (OInst [("x", Some (KeyS "ax", 1%Z))])
+  /\ impl_hooked [None] ls None [(KeyS "old", 1%Z); (KeyS "junk", 2%Z)] = Ok (OExtra [KeyS "old"; KeyS "junk"]).
+Proof. split; vm_compute; reflexivity. Qed.
 
 (* ---- dataclass-typed fields: the value found under the outer key is decoded by the inner class with the
    inner class's own aliases and options; failures inside surface as InvalidFieldValue of the outer field ---- *)
